@@ -301,6 +301,9 @@ def _run_property(pid, tier, seed, args):
     for m in vmetas:
         trusted += m['trusted']
     trusted += P.get('trusted', [])
+    knames = set(o['harness'] for o in obls if o.get('harness'))
+    if knames:
+        trusted += kani.harness_stubs(knames)
     wall = time.time() - t0
     level = P['level']
     cov = {
